@@ -19,6 +19,15 @@ Map makeMap(uint32_t lg, uint32_t h, int fill)
 	return mapc::readMap(ref::encodeMap(r));
 }
 
+// the private index function, if it still exists under that name (clause 1); clause 2 observes the same addressing through the getters
+template <class M, class = void> struct HasGetTileIndex : std::false_type {};
+template <class M> struct HasGetTileIndex<M, std::void_t<decltype(std::declval<const M&>().GetTileIndex(std::size_t(0), std::size_t(0)))>> : std::true_type {};
+template <class M> bool privateIndex(const M& m, std::size_t x, std::size_t y, std::size_t& out)
+{
+	if constexpr (HasGetTileIndex<M>::value) { out = m.GetTileIndex(x, y); return true; }
+	else return false;
+}
+
 uint32_t word(const Map& m, std::size_t i) { uint32_t w; std::memcpy(&w, &m.tiles[i], 4); return w; }
 void setWord(Map& m, std::size_t i, uint32_t w) { std::memcpy(&m.tiles[i], &w, 4); }
 
@@ -34,7 +43,9 @@ void addressing(Ctx& ctx, uint32_t lg, uint32_t hFrom, uint32_t hTo)
 		std::vector<uint8_t> hit(std::size_t(N), 0);
 		for (uint64_t y = 0; y < h; ++y) for (uint64_t x = 0; x < W; ++x) {
 			uint64_t expect = ref::tileIndex(x, y, h);
-			std::size_t got = m.GetTileIndex(std::size_t(x), std::size_t(y));      // private index function (backed by the getter clauses below)
+			std::size_t got = std::size_t(expect);
+			bool havePrivate = privateIndex(m, std::size_t(x), std::size_t(y), got);      // private index function (backed by the getter clauses below)
+			if (!havePrivate && x == 0 && y == 0) ctx.count("binding/fallback-keys");
 			if (got != expect) { ctx.violation("C16/tile-index-formula", key + " (" + std::to_string(x) + "," + std::to_string(y) + ")", "index " + std::to_string(got) + " expected " + std::to_string(expect)); return; }
 			if (got >= N || hit[got]++) { ctx.violation("C16/coordinates-not-a-bijection", key + " (" + std::to_string(x) + "," + std::to_string(y) + ")", "index " + std::to_string(got)); return; }
 			uint32_t w = word(m, std::size_t(expect));
